@@ -13,7 +13,7 @@
 # limitations under the License.
 
 import time
-from io import TextIOWrapper
+from io import StringIO, TextIOWrapper
 from subprocess import Popen, PIPE
 
 import pysmt.smtlib.commands as smtcmd
@@ -124,12 +124,35 @@ class SmtLibSolver(Solver): # TODO this class is defined twice in pysmt. Here an
 
     def _get_value_answer(self):
         """Reads and parses an assignment from the STDOUT pipe"""
-        lst = self.parser.get_assignment_list(self.solver_stdout)
-        # The parser stops at the closing parenthesis: consume the rest of
-        # the line, otherwise it is read as the reply to the next command
-        self.solver_stdout.readline()
+        # The whole reply (it may span several lines) is read before it is
+        # parsed: the parser stops at the closing parenthesis, or where an
+        # error reply stops making sense as an assignment, and what it
+        # leaves in the pipe would be read as the reply to the next command
+        reply = self._get_complete_answer()
+        lst = self.parser.get_assignment_list(StringIO(reply))
         self._debug("Read: %s", lst)
         return lst
+
+    def _get_complete_answer(self):
+        """Reads lines from the STDOUT pipe up to the end of an s-expr"""
+        lines = []
+        depth, closing = 0, None
+        while True:
+            line = self.solver_stdout.readline()
+            lines.append(line)
+            for c in line:
+                if closing is not None:
+                    # Within a string literal or a quoted symbol
+                    if c == closing:
+                        closing = None
+                elif c in '"|':
+                    closing = c
+                elif c == "(":
+                    depth += 1
+                elif c == ")":
+                    depth -= 1
+            if not line or (depth <= 0 and closing is None and line.strip()):
+                return "".join(lines)
 
     def _declare_sort(self, sort):
         cmd = SmtLibCommand(smtcmd.DECLARE_SORT, [sort])
